@@ -33,9 +33,24 @@ def _types():
     return {"dec": a.DECAngle, "hp": a.HPAngle, "gon": a.GONAngle, "dms": a.DMSAngle, "ddm": a.DDMAngle}
 
 
+_KW = [False]      # leaves of the tree being evaluated are built through the constructors' keyword arguments
+
+
 def _leaf(cls, x):
     a = repo.mod("geodepy.angles")
-    return {"dec": a.DECAngle, "hp": a.dec2hpa, "gon": a.dec2gona, "dms": a.dec2dms, "ddm": a.dec2ddm}[cls](x)
+    o = {"dec": a.DECAngle, "hp": a.dec2hpa, "gon": a.dec2gona, "dms": a.dec2dms, "ddm": a.dec2ddm}[cls](x)
+    if not _KW[0]:
+        return o
+    # the same object written with the constructor's parameter names
+    if cls == "dec":
+        return a.DECAngle(dec_angle=x)
+    if cls == "hp":
+        return a.HPAngle(hp_angle=o.hp_angle)
+    if cls == "gon":
+        return a.GONAngle(gon_angle=o.gon_angle)
+    if cls == "dms":
+        return a.DMSAngle(degree=o.degree, minute=o.minute, second=o.second, positive=o.positive)
+    return a.DDMAngle(degree=o.degree, minute=o.minute, positive=o.positive)
 
 
 def _dec(obj, what):
@@ -210,6 +225,14 @@ def _eval1(node, path="root", _ev=None):
 
 
 def check_tree(case):
+    _KW[0] = bool(case.get("kw"))
+    try:
+        _check_tree(case)
+    finally:
+        _KW[0] = False
+
+
+def _check_tree(case):
     root = case["tree"]
     if root["op"] in ("eq", "ne", "lt", "gt"):
         lo, lv, lt, lx = _eval(root["l"])
@@ -336,7 +359,8 @@ root_s = st.one_of(tree_s, tree_s, tree_s,
                    # equal angles held in two different classes
                    st.builds(lambda o, c1, c2, v: {"op": o, "l": {"op": "leaf", "cls": c1, "v": v}, "r": {"op": "leaf", "cls": c2, "v": v}},
                              st.sampled_from(["eq", "ne", "lt", "gt"]), st.sampled_from(CLS), st.sampled_from(CLS), _wholeminute()))
-cases = st.builds(lambda t, a: {"tree": t, "assign": a}, root_s, st.lists(st.integers(0, 2 ** 30), min_size=1, max_size=3))
+cases = st.builds(lambda t, a, kw: {"tree": t, "assign": a, "kw": kw}, root_s, st.lists(st.integers(0, 2 ** 30), min_size=1, max_size=3),
+                  st.sampled_from([False, False, False, True]))
 
 
 def _fill_build(u):
